@@ -21,6 +21,7 @@ package cache
 //@   invariant balance: stored(c.entries) <= c.totalSize
 //@   invariant budget: c.totalSize <= c.config.MaxSize
 //@   invariant entries_ok: forall k string :: k in c.entries ==> c.entries[k] != nil && allocated(c.entries[k])
+//@   invariant entries_verified: forall k string :: k in c.entries ==> c.entries[k].Name == k && hashok(sliceid(c.entries[k].Data), k)
 
 //@ specfunc bshape(c *BlobMemoryCache) bool = c != nil && c.entries != nil
 
@@ -89,3 +90,9 @@ package cache
 //@ func BlobMemoryCache.TotalBytes
 //@   requires bshape(c)
 //@   ensures within_budget: result <= c.config.MaxSize
+
+// Get hands out only entries stored under their own name whose bytes hash to it (property C01).
+//@ func BlobMemoryCache.Get
+//@   requires bshape(c)
+//@   nopanic
+//@   ensures served_verified: result != nil ==> result.Name == name && hashok(sliceid(result.Data), name)
